@@ -102,6 +102,18 @@ def ext_block_bodies(draw, extended_eid=False):
     return tcode, draw(payload_bytes(60)).hex()
 
 
+UNASSIGNED_REASONS = [17, 23, 24, 100, 255, 256, 65535]
+
+
+@st.composite
+def other_admin_records(draw):
+    ''' An administrative record of a type this implementation does not know: [type code, any content]. '''
+    from . import cborpull as cb
+    rtype = draw(st.sampled_from([2, 3, 4, 7, 23, 24, 255, 65536]))
+    content = draw(st.sampled_from([[], [1, 2, 3], {}, 0, b'\x01\x02', 'text', [[True], 5]]))
+    return cb.enc([rtype, content]).hex()
+
+
 @st.composite
 def status_reports(draw, extended_eid=False):
     want_time = draw(st.booleans())
@@ -113,6 +125,9 @@ def status_reports(draw, extended_eid=False):
         else:
             status.append([asserted])
     reason = draw(st.sampled_from([0, 1, 2, 3, 4, 5, 6, 7, 8, 9, 10, 11, 12, 13, 14, 15, 16]))
+    if draw(st.integers(0, 5)) == 0:
+        # a reason code the registry has not assigned (yet): still an RFC 9171 unsigned integer
+        reason = draw(st.sampled_from(UNASSIGNED_REASONS))
     frag = [draw(uints()), draw(uints())] if draw(st.booleans()) else None
     return ref9171.status_report(status, reason, draw(eids(extended_eid)), [draw(uints()), draw(uints())], frag)
 
@@ -135,7 +150,14 @@ def bundles(draw, max_ext=3, admin=None, fragment=None, payload_max=400, extende
         blocks.append(dict(type=tcode, num=num, flags=bflags,
                            crc_type=draw(st.sampled_from(list(crc_types))), data=data))
     if is_admin:
-        pdata = draw(status_reports(extended_eid))
+        kind = draw(st.sampled_from(['status', 'status', 'status', 'status', 'other-type']))
+        pdata = draw(status_reports(extended_eid)) if kind == 'status' else draw(other_admin_records())
+        if pri['frag'] is not None and draw(st.booleans()):
+            # a fragment of an administrative record carries a slice of the encoded record, not a record
+            octets = bytes.fromhex(pdata)
+            start = draw(st.integers(0, max(0, len(octets) - 1)))
+            stop = draw(st.integers(start, len(octets)))
+            pdata = octets[start:stop].hex()
     else:
         pdata = draw(payload_bytes(payload_max)).hex()
     blocks.append(dict(type=1, num=1, flags=draw(flag_sets(BLOCK_FLAGS)),
